@@ -1,0 +1,58 @@
+// Verification hooks.  Compiled only with `--features verif`; with the feature
+// off nothing in this file (or at its call sites) exists.
+//
+// `point(name, detail)` appends one line "<pid> <monotonic ns> <name> <detail>"
+// to the file named by $REDO_VERIF_TRACE (single O_APPEND write) and, when
+// $REDO_VERIF_DELAY lists the point ("name=ms" or "name:substring=ms", comma
+// separated; the substring is matched against detail), sleeps that long.
+
+use std::fs::OpenOptions;
+use std::io::Write;
+use std::time::Duration;
+
+pub use crate::logs::verif_hooks::*;
+pub use crate::paths::verif_hooks::*;
+pub use crate::state::verif_hooks::*;
+
+fn mono_ns() -> u128 {
+    let mut ts = libc::timespec {
+        tv_sec: 0,
+        tv_nsec: 0,
+    };
+    unsafe {
+        libc::clock_gettime(libc::CLOCK_MONOTONIC, &mut ts);
+    }
+    (ts.tv_sec as u128) * 1_000_000_000u128 + ts.tv_nsec as u128
+}
+
+pub fn point(name: &str, detail: &str) {
+    if let Some(path) = std::env::var_os("REDO_VERIF_TRACE") {
+        if let Ok(mut f) = OpenOptions::new().append(true).create(true).open(path) {
+            let line = format!("{} {} {} {}\n", std::process::id(), mono_ns(), name, detail);
+            let _ = f.write_all(line.as_bytes());
+        }
+    }
+    if let Ok(spec) = std::env::var("REDO_VERIF_DELAY") {
+        for item in spec.split(',') {
+            let (key, ms) = match item.rfind('=') {
+                Some(i) => (&item[..i], &item[i + 1..]),
+                None => continue,
+            };
+            let (pname, sub) = match key.find(':') {
+                Some(i) => (&key[..i], Some(&key[i + 1..])),
+                None => (key, None),
+            };
+            if pname != name {
+                continue;
+            }
+            if let Some(sub) = sub {
+                if !detail.contains(sub) {
+                    continue;
+                }
+            }
+            if let Ok(ms) = ms.parse::<u64>() {
+                std::thread::sleep(Duration::from_millis(ms));
+            }
+        }
+    }
+}
